@@ -203,9 +203,11 @@ impl CommandContext {
         // Use visit_type_for_interface to get TypeScript types (not Zod schemas)
         let return_type_ts = visitor.visit_type_for_interface(&cmd.return_type_structure);
 
-        // Compute TypeScript names using NamingContext trait methods
-        let ts_function_name = self.compute_function_name(&cmd.name, &cmd.serde_rename_all);
-        let ts_type_name = self.compute_type_name(&cmd.name, &cmd.serde_rename_all);
+        // Compute TypeScript names using NamingContext trait methods; a raw identifier
+        // (`fn r#type`) keeps its `r#` in the invoke name only
+        let ident = cmd.name.strip_prefix("r#").unwrap_or(&cmd.name);
+        let ts_function_name = self.compute_function_name(ident, &cmd.serde_rename_all);
+        let ts_type_name = self.compute_type_name(ident, &cmd.serde_rename_all);
 
         // Populate parameters
         let parameters: Vec<ParameterContext> = cmd
